@@ -10,7 +10,8 @@ pub const VAL_BITS: usize = 31; // BabyBear::bits()
 pub const TWO_ADICITY: usize = 27;
 pub const WORD_BITS: usize = 64;
 /// an allocation of more targets than this kills the worker under its address-space limit
-/// (the largest count the enumeration produces below it is (2^8-1)*4, the smallest above (2^28-1)*4)
+/// (no allocation size is computed from a prover-supplied integer any more since /repo fc0321f; the
+/// constant stays on the driver line, no step of the model reads it)
 pub const MAX_ALLOC: usize = 1 << 26;
 
 fn len(v: &Value) -> Option<usize> {
@@ -63,6 +64,10 @@ pub fn fri_line(op: &Value) -> Option<String> {
         }
         let steps: Vec<usize> = q["commit_phase_openings"].as_array()?.iter().map(|o| num(&o["log_arity"]).map(|x| x as usize)).collect::<Option<_>>()?;
         s.push_str(&format!(" {}", list(&steps)));
+        // sibling count of every opening: since fc0321f the targets are allocated from it and
+        // `verify_fri_circuit` compares it with `2^log_arity - 1`
+        let sibs: Vec<usize> = q["commit_phase_openings"].as_array()?.iter().map(|o| len(&o["sibling_values"])).collect::<Option<_>>()?;
+        s.push_str(&format!(" {}", list(&sibs)));
     }
     s.push_str(&format!(" {}", len(&op["final_poly"])?));
     Some(s)
